@@ -922,6 +922,32 @@ def history_ops():
             P.nets.append(tn.astype("float32"))
 
     @op
+    def remove_all_refill(P, rng):
+        # empty a network whose tensors stay alive in a view, then refill it:
+        # the old tensors must no longer notify the emptied network
+        tn = P.pick_net()
+        if not tn.tensor_map:
+            return False
+        view = tn.copy(virtual=True)
+        P.nets.append(view)
+        tn.remove_all_tensors()
+        for _ in range(int(rng.integers(0, 3))):
+            tn.add_tensor(P.rand_tensor(tn))
+        # now touch the old tensors through the view
+        for t in list(view.tensor_map.values())[:3]:
+            t.add_tag("AFTER")
+
+    @op
+    def drop_add_tags(P, rng):
+        tn = P.pick_net()
+        if not tn.tag_map:
+            return False
+        if rng.random() < 0.5:
+            tn.drop_tags(_orig_tag(rng, tn))
+        else:
+            tn.add_tag("ALL" + str(int(rng.integers(0, 3))))
+
+    @op
     def unique_tagging(P, rng):
         # give every tensor of a network a unique tag (enables tag based ops)
         tn = P.pick_net()
